@@ -1055,8 +1055,9 @@ class Median(GroupByShift):
     @functools.cached_property
     def npartitions(self):
         npartitions = self.frame.npartitions
-        if self.split_every is not None:
-            npartitions = npartitions // self.split_every
+        if self.split_every:
+            # At least one output partition (split_every=False: keep them all)
+            npartitions = max(npartitions // self.split_every, 1)
         return npartitions
 
 
